@@ -5,7 +5,7 @@
       palette length; palette hash; screen length; screen hash; screen hash after the probe pixels; screen length; screen hash
       after bar(0,0,1295,7)]      |  [-1; site] on Panic  |  [-2] when an unmodelled command is reached *)
 From Coq Require Import NArith ZArith List Bool Uint63.
-From IE Require Import Gen.RipGen Gen.RipLineGen Model.RipTok Model.BgiKernel Model.RipStream Model.BgiLine Model.RipStream2 Gen.IgsGen Model.IgsTok Model.IgsKernel.
+From IE Require Import Gen.RipGen Gen.RipLineGen Model.RipTok Model.BgiKernel Model.RipStream Model.BgiLine Model.RipStream2 Gen.IgsGen Model.IgsTok Model.IgsKernel Model.IgsLine.
 Import ListNotations.
 Local Open Scope Z_scope.
 
@@ -130,5 +130,36 @@ Definition run_igs (cs : list N) : list Z :=
                 | Panic p => [-1; Z.of_N p]
                 | Ok px => [Z.of_N errs; Z.of_N steps; e_w e; e_h e; Z.of_nat (length px); hash px]
                 end
+    end
+  end.
+
+(* run_igs2 cs : as run_igs with the executor extended by DrawLine / LineDrawTo / LineMarkerTypes (Model/IgsLine.v) *)
+Fixpoint igs_drain2 (k : nat) (w : iworld xstate2 unit) (steps : N) : res (iworld xstate2 unit * N) :=
+  match k with
+  | O => Ok (w, steps)
+  | S k' => r <- igs_next_action xstate2 igs_x2 unit w ;;
+            let '(w', some) := r in if some then igs_drain2 k' w' (N.succ steps) else Ok (w', steps)
+  end.
+
+Fixpoint igs_feed2 (cs : list N) (w : iworld xstate2 unit) (errs steps : N) : res (iworld xstate2 unit * N * N) :=
+  match cs with
+  | [] => Ok (w, errs, steps)
+  | c :: t => r <- igs_step xstate2 igs_x2 unit igs_fb w c ;;
+              let '(w1, ok) := r in
+              d <- igs_drain2 64 w1 steps ;;
+              let '(w2, steps') := d in igs_feed2 t w2 (if ok then errs else N.succ errs) steps'
+  end.
+
+Definition run_igs2 (cs : list N) : list Z :=
+  match igs_feed2 cs {| w_p := ipars_new; w_x := SOkE2 iexec2_new; w_fb := tt |} 0%N 0%N with
+  | Panic p => [-1; Z.of_N p]
+  | Ok (w, errs, steps) =>
+    match w_x xstate2 unit w with
+    | SPanicE2 p => [-1; Z.of_N p]
+    | SUnmodelledE2 => [-2]
+    | SOkE2 s => match igs_picture (x_e s) with
+                 | Panic p => [-1; Z.of_N p]
+                 | Ok px => [Z.of_N errs; Z.of_N steps; e_w (x_e s); e_h (x_e s); Z.of_nat (length px); hash px]
+                 end
     end
   end.
